@@ -187,3 +187,6 @@ PROPS["C20"] = _hist(
     ["Traph.get_webentity_most_linked_pages_iter", "LinkStore.weighted_link_nodes_iter"],
     Q(120), T(1600),
 )
+
+# properties deliberately not claimed (none so far): id -> reason
+NOT_APPLICABLE = {}
